@@ -289,7 +289,7 @@ func (o *Output) getKeyPairs() ([]KeyPair, error) {
 		kp := KeyPair{
 			Key: Key{
 				KeyType: PsetProprietary,
-				KeyData: proprietaryKey(v.Subtype, v.KeyData),
+				KeyData: proprietaryKeyWithIdentifier(v.Identifier, v.Subtype, v.KeyData),
 			},
 			Value: v.Value,
 		}
@@ -460,6 +460,9 @@ func (o *Output) deserialize(buf *bytes.Buffer) error {
 				default:
 					o.ProprietaryData = append(o.ProprietaryData, pd)
 				}
+			} else {
+				// an entry of another identifier: keep it as it is
+				o.ProprietaryData = append(o.ProprietaryData, pd)
 			}
 		default:
 			o.Unknowns = append(o.Unknowns, kp)
